@@ -273,6 +273,11 @@ def check_c16(tier):
                 extra.append(("%s#badchar%s" % (name, ch), text[:at.pos] + ch + text[at.pos:]))
             extra.append(("%s#trailing-brace" % name, text + "}\n"))
             extra.append(("%s#leading-brace" % name, "{ " + text))
+        canon = lib_reference(R.drv, docs.SECOND, tmp, 0)
+        if canon.get("ok"):
+            extra.append(("canonical", canon["result"]))
+            extra.append(("canonical+newline", canon["result"] + "\n"))
+            extra.append(("blank+canonical+blank", "\n\n  " + canon["result"] + "\n\n\t\n"))
         extra.append(("minimal", docs.MINIMAL))
         extra.append(("special", docs.SPECIAL))
         extra.append(("special-relaid", dsltok.relayout(docs.SPECIAL, "fewlines", 1)))
